@@ -107,6 +107,7 @@ PROPS['C17'] = dict(
 
 PROPS['C09'] = _srv(209, extra_tests=['TestC09NoAlias', 'TestC09Burst', 'TestC09ConcurrentDB'],
     env={'VERIF_MONITORS': '201+205+206'}, monitor_tags={201, 205, 206}, race=True,
+    race_tests=['TestC09Burst', 'TestC09ConcurrentDB', 'TestServerHistories', 'TestServerStories'],
     rule=SERVER_RULE + ' PLUS: no-alias run (3000/60000 decoded messages compared after the receive buffer is overwritten); real-time bursts through '
          'the real Run loop (12/200 scenarios: 2-5 unbound clients DISCOVER at the same instant, with and without a common suggestion, pools larger/smaller '
          'than the burst, then all REQUEST at once: one OFFER/ACK each, pairwise distinct); 40/1000 rounds of 3-12 goroutines calling OfferIP/UpdateClient/'
